@@ -120,7 +120,7 @@ fn c37_set_topic_qos() {
 }
 
 // @check props=C37 tier=quick
-// @desc get_topic_qos returns exactly the QoS stored in the topic entity, for ANY stored scalar policies (written directly into the entity) - together with c37_set_topic_qos / c37_create_topic_qos__rest: an accepted QoS is returned unchanged by get_qos, a rejected one leaves get_qos at the previous value
+// @desc get_topic_qos returns exactly the QoS stored in the topic entity, for ANY stored scalar policies (written directly into the entity) - together with c37_set_topic_qos / c37_create_topic_qos: an accepted QoS is returned unchanged by get_qos, a rejected one leaves get_qos at the previous value
 // @bounds one topic; every scalar policy of the stored TopicQos symbolic; sequences empty. unwind 18
 // @assume stub: TypeInformation::from, alloc::fmt::format
 // @enc dcps::dcps_domain_participant::topic_methods::DcpsDomainParticipant::get_topic_qos
@@ -162,17 +162,18 @@ fn c37_get_topic_qos_returns_stored() {
 // clone loop exhausts 8 GB in propositional reduction.  The setters are observed through the stored field.
 
 // @check props=C37 tier=quick
-// @desc set_subscriber_qos (enabled flag symbolic, ANY previous and new presentation / autoenable): Ok exactly when not enabled or PRESENTATION unchanged; Err is ImmutablePolicy and the stored QoS is the previous one; Ok => the stored QoS is the argument. set_publisher_qos OUTSIDE the recorded trigger KF-C37-1 (publisher not enabled, or presentation unchanged): Ok and the stored QoS is the argument
+// @desc set_subscriber_qos and set_publisher_qos (enabled flag symbolic, ANY previous and new presentation / autoenable): Ok exactly when not enabled or PRESENTATION unchanged; Err is ImmutablePolicy and the stored QoS is the previous one; Ok => the stored QoS is the argument (the publisher part found KF-C37-1 - no immutability check in set_publisher_qos -, repaired; the full oracle is asserted for both entities)
 // @bounds one participant / publisher / subscriber; presentation (scope x coherent x ordered) and autoenable symbolic in previous and new QoS; partition and group data empty. unwind 18
-// @assume enabled flags and previous QoS written directly into the entities; publisher part assumes NOT trigger KF-C37-1
+// @assume enabled flags and previous presentation / autoenable written directly into the entities
 // @enc dcps::dcps_domain_participant::subscriber_methods::DcpsDomainParticipant::set_subscriber_qos
 // @enc dcps::dcps_domain_participant::publisher_methods::DcpsDomainParticipant::set_publisher_qos
 // @enc infrastructure::qos::SubscriberQos::check_immutability
+// @enc infrastructure::qos::PublisherQos::check_immutability
 #[kani::proof]
 #[kani::unwind(18)]
 #[kani::stub(critical_section::acquire, super::support_cs::cs_acquire)]
 #[kani::stub(critical_section::release, super::support_cs::cs_release)]
-fn c37_set_group_qos__rest() {
+fn c37_set_group_qos() {
     let cap = sp::Capture::new();
     let mut p = sp::participant(&cap, 0);
     let hs = new_subscriber(&mut p);
@@ -202,34 +203,42 @@ fn c37_set_group_qos__rest() {
     kani::cover!(r.is_ok() && enabled && old_auto != new.entity_factory.autoenable_created_entities, "enabled subscriber: autoenable changed");
     kani::cover!(r.is_ok() && !enabled && old_pres != new.presentation, "not enabled subscriber: presentation changed");
 
-    // publisher, outside KF-C37-1
+    // publisher: same oracle
     let pold_pres = sq::any_presentation();
+    let pold_auto: bool = kani::any();
     let mut pnew = PublisherQos::const_default();
     pnew.presentation = sq::any_presentation();
     pnew.entity_factory.autoenable_created_entities = kani::any();
     let penabled: bool = kani::any();
-    kani::assume(!(penabled && pold_pres != pnew.presentation));
     p.domain_participant.user_defined_publisher_list[0].qos.presentation = pold_pres.clone();
+    p.domain_participant.user_defined_publisher_list[0].qos.entity_factory.autoenable_created_entities = pold_auto;
     p.domain_participant.user_defined_publisher_list[0].enabled = penabled;
     let pr = p.set_publisher_qos(&hp, QosKind::Specific(pnew.clone()));
     let pstored = &p.domain_participant.user_defined_publisher_list[0].qos;
-    assert!(pr.is_ok(), "C37: set_publisher_qos accepts a QoS that changes no immutable policy of an enabled publisher");
-    assert!(pstored.presentation == pnew.presentation && pstored.entity_factory == pnew.entity_factory, "C37: an accepted set_publisher_qos stores the argument");
-    kani::cover!(penabled && !pnew.entity_factory.autoenable_created_entities, "enabled publisher: autoenable changed");
-    kani::cover!(!penabled && pold_pres != pnew.presentation, "not enabled publisher: presentation changed");
+    assert!(pr.is_ok() == (!penabled || pold_pres == pnew.presentation), "C37: set_publisher_qos rejects exactly a PRESENTATION change on an enabled publisher");
+    match &pr {
+        Ok(()) => assert!(pstored.presentation == pnew.presentation && pstored.entity_factory == pnew.entity_factory, "C37: an accepted set_publisher_qos stores the argument"),
+        Err(_) => {
+            assert!(is_immutable(&pr), "C37: set_publisher_qos fails with ImmutablePolicy");
+            assert!(pstored.presentation == pold_pres && pstored.entity_factory.autoenable_created_entities == pold_auto, "C37: a rejected set_publisher_qos keeps the previous QoS");
+        }
+    }
+    kani::cover!(is_immutable(&pr), "publisher: ImmutablePolicy reported");
+    kani::cover!(pr.is_ok() && penabled && pold_auto != pnew.entity_factory.autoenable_created_entities, "enabled publisher: autoenable changed");
+    kani::cover!(pr.is_ok() && !penabled && pold_pres != pnew.presentation, "not enabled publisher: presentation changed");
     core::mem::forget((p, new, pnew));
 }
 
-// @check props=C37 tier=quick known=KF-C37-1
-// @desc KF-C37-1: set_publisher_qos on an ENABLED publisher with a different PRESENTATION policy (Changeable = NO in DDS 1.4 §2.2.3, enforced by set_subscriber_qos) must fail with ImmutablePolicy and keep the previous QoS - expected to FAIL: set_publisher_qos performs no immutability check
+// @check props=C37 tier=quick
+// @desc regression obligation for the repaired KF-C37-1: set_publisher_qos on an ENABLED publisher with a different PRESENTATION policy (Changeable = NO in DDS 1.4 2.2.3) fails with ImmutablePolicy and keeps the previous QoS
 // @bounds one participant / publisher; previous and new presentation symbolic. unwind 18
-// @assume trigger KF-C37-1: publisher enabled and new presentation != previous presentation
+// @assume focus region: publisher enabled and new presentation != previous presentation (unrestricted oracle: c37_set_group_qos)
 // @enc dcps::dcps_domain_participant::publisher_methods::DcpsDomainParticipant::set_publisher_qos
 #[kani::proof]
 #[kani::unwind(18)]
 #[kani::stub(critical_section::acquire, super::support_cs::cs_acquire)]
 #[kani::stub(critical_section::release, super::support_cs::cs_release)]
-fn c37_set_publisher_qos_presentation__known() {
+fn c37_set_publisher_qos_presentation() {
     let cap = sp::Capture::new();
     let mut p = sp::participant(&cap, 0);
     let hp = new_publisher(&mut p);
@@ -247,9 +256,9 @@ fn c37_set_publisher_qos_presentation__known() {
 }
 
 // @check props=C37 tier=quick
-// @desc create_topic with a CONSISTENT specific QoS (negation of trigger KF-C37-2) succeeds and the topic stores exactly that QoS; set_default_topic_qos: Ok exactly for consistent values, Err(InconsistentPolicy) keeps the previous default, Ok stores the argument
-// @bounds TopicQos with every scalar policy symbolic (limits non-negative); sequences empty. unwind 18
-// @assume stub: TypeInformation::from and alloc::fmt::format; limits non-negative; create_topic part assumes NOT trigger KF-C37-2 (QoS consistent)
+// @desc create_topic with ANY specific QoS: Ok exactly for consistent values and then the topic stores exactly that QoS; otherwise Err(InconsistentPolicy) and no topic is created (found KF-C37-2 - create_topic did not check consistency -, repaired; full oracle asserted). set_default_topic_qos: Ok exactly for consistent values, Err(InconsistentPolicy) keeps the previous default, Ok stores the argument
+// @bounds TopicQos with every scalar policy symbolic (limits Unlimited / Limited(any i32 >= 0)); sequences empty. unwind 18
+// @assume stub: TypeInformation::from and alloc::fmt::format; limits non-negative
 // @enc dcps::dcps_domain_participant::participant_methods::DcpsDomainParticipant::create_topic
 // @enc dcps::dcps_domain_participant::participant_methods::DcpsDomainParticipant::set_default_topic_qos
 #[kani::proof]
@@ -258,7 +267,7 @@ fn c37_set_publisher_qos_presentation__known() {
 #[kani::stub(critical_section::release, super::support_cs::cs_release)]
 #[kani::stub(<crate::xtypes::type_object::TypeInformation as core::convert::From<crate::xtypes::dynamic_type::DynamicType<'static>>>::from, super::support_participant::type_information_stub)]
 #[kani::stub(alloc::fmt::format, super::support_participant::fmt_format_stub)]
-fn c37_create_topic_qos__rest() {
+fn c37_create_topic_qos() {
     let cap = sp::Capture::new();
     let mut p = sp::participant(&cap, 0);
     let d = any_scalar_topic_qos();
@@ -276,19 +285,29 @@ fn c37_create_topic_qos__rest() {
     kani::cover!(dr.is_ok() && !topic_scalars_equal(&d, &TopicQos::const_default()), "non-default default accepted");
 
     let q = any_scalar_topic_qos();
-    kani::assume(sq::topic_limits_non_negative(&q) && sq::topic_consistent(&q));
+    kani::assume(sq::topic_limits_non_negative(&q));
+    let n_before = p.domain_participant.locally_created_topic_list.len();
     let r = new_topic(&mut p, QosKind::Specific(q.clone()));
-    assert!(r.is_ok(), "C37: create_topic accepts a consistent QoS");
-    assert!(p.domain_participant.locally_created_topic_list.len() == 1, "C37: the created topic is stored");
-    assert!(topic_scalars_equal(&p.domain_participant.locally_created_topic_list[0].qos, &q), "C37: the topic stores the QoS it was created with");
-    kani::cover!(!topic_scalars_equal(&q, &TopicQos::const_default()), "non-default topic QoS");
+    assert!(r.is_ok() == sq::topic_consistent(&q), "C37: create_topic accepts exactly the consistent QoS values");
+    match &r {
+        Ok(_) => {
+            assert!(p.domain_participant.locally_created_topic_list.len() == n_before + 1, "C37: the created topic is stored");
+            assert!(topic_scalars_equal(&p.domain_participant.locally_created_topic_list[n_before].qos, &q), "C37: the topic stores the QoS it was created with");
+        }
+        Err(_) => {
+            assert!(is_inconsistent(&r), "C37: create_topic rejects an inconsistent QoS with InconsistentPolicy");
+            assert!(p.domain_participant.locally_created_topic_list.len() == n_before, "C37: a rejected create_topic creates no topic");
+        }
+    }
+    kani::cover!(r.is_ok() && !topic_scalars_equal(&q, &TopicQos::const_default()), "non-default topic QoS accepted");
+    kani::cover!(r.is_err(), "inconsistent topic QoS rejected");
     core::mem::forget((p, d, q));
 }
 
-// @check props=C37 tier=quick known=KF-C37-2
-// @desc KF-C37-2: create_topic with an INCONSISTENT specific QoS must fail with InconsistentPolicy and create nothing - expected to FAIL: create_topic never calls is_consistent for QosKind::Specific (create_data_writer / create_data_reader / set_topic_qos / set_default_topic_qos do)
+// @check props=C37 tier=quick
+// @desc regression obligation for the repaired KF-C37-2: create_topic with an INCONSISTENT specific QoS fails with InconsistentPolicy and creates nothing
 // @bounds TopicQos with history and the three resource limits symbolic (limits non-negative), other policies default. unwind 18
-// @assume trigger KF-C37-2: the QoS passed to create_topic is inconsistent (max_samples < max_samples_per_instance or KEEP_LAST depth > max_samples_per_instance); stub: TypeInformation::from, alloc::fmt::format
+// @assume focus region: the QoS passed to create_topic is inconsistent (max_samples < max_samples_per_instance or KEEP_LAST depth > max_samples_per_instance) (unrestricted oracle: c37_create_topic_qos); stub: TypeInformation::from, alloc::fmt::format
 // @enc dcps::dcps_domain_participant::participant_methods::DcpsDomainParticipant::create_topic
 #[kani::proof]
 #[kani::unwind(18)]
@@ -296,7 +315,7 @@ fn c37_create_topic_qos__rest() {
 #[kani::stub(critical_section::release, super::support_cs::cs_release)]
 #[kani::stub(<crate::xtypes::type_object::TypeInformation as core::convert::From<crate::xtypes::dynamic_type::DynamicType<'static>>>::from, super::support_participant::type_information_stub)]
 #[kani::stub(alloc::fmt::format, super::support_participant::fmt_format_stub)]
-fn c37_create_topic_inconsistent__known() {
+fn c37_create_topic_inconsistent() {
     let cap = sp::Capture::new();
     let mut p = sp::participant(&cap, 0);
     let mut q = TopicQos::const_default();
